@@ -63,11 +63,12 @@ def c13_family(tier, sd=0):
         add([("dyn", ("str",)), ("u", 8)])
         add([("opt", ("struct", "In")), ("u", 8)], structs=[In8])
         add([("str",), ("str",)])
-        for n in (1, 2, 5, 7, 9, 12, 15, 17, 31, 33, 63):
-            add([("u", n), ("i", n if n > 1 else 2)])
+        for n in range(1, 65):
+            add([("u", n), ("i", n), ("u", 8)])
+        add([("u", 8), ("struct", "Out")], structs=[In8, ("Out", [("a", 0, ("struct", "In")), ("b", 1, ("arr", ("struct", "In"), 2)), ("c", 2, ("i", 8))])])
         rng = random.Random(sd)
         from ..shapes import random_schema
-        for _ in range(12):
+        for _ in range(40):
             fam.append(random_schema(rng, include_enums=True, fixed_only=False, depth=1, maxfields=3))
     seen, out = set(), []
     for s in fam:
